@@ -308,9 +308,10 @@ impl Run {
                     let mut p = Prng::new(op["seed"].as_u64().unwrap_or(0));
                     let cur = catch_unwind(AssertUnwindSafe(|| self.reps[r].as_ref().unwrap().melda.read(None)));
                     let arrays_only = op.get("arrays").and_then(|v| v.as_bool()).unwrap_or(false);
+                    let akind = op.get("akind").and_then(|v| v.as_u64()).map(|k| k as usize);
                     match cur {
-                        Ok(Ok(d)) if arrays_only => gen::mutate_arrays(&mut p, &d, self.universe),
-                        Ok(Err(_)) if arrays_only => gen::mutate_arrays(&mut p, &Map::new(), self.universe),
+                        Ok(Ok(d)) if arrays_only => gen::mutate_arrays_kind(&mut p, &d, self.universe, akind),
+                        Ok(Err(_)) if arrays_only => gen::mutate_arrays_kind(&mut p, &Map::new(), self.universe, akind),
                         Ok(Ok(d)) if !p.chance(1, 12) => gen::mutate_doc(&mut p, self.gencfg, &d, self.universe),
                         Ok(_) => gen::fresh_doc(&mut p, self.gencfg, self.universe),
                         Err(_) => {
@@ -1071,6 +1072,30 @@ pub fn random_spec(run: u64, seed: u64, profile: &str) -> Value {
         for r in 1..nrep {
             ops.push(json!({"op": "sync", "r": r, "s": 0}));
         }
+        if p.chance(1, 2) {
+            // from a common version: every replica inserts its own element, then all make the same positional
+            // edit -- leaves with the same index and the same edit script on different parents
+            let ins = 2 + p.below(2);
+            let akind = *p.pick(&[0usize, 1, 4]);
+            let seed = p.next();
+            for r in 0..nrep {
+                ops.push(json!({"op": "edit", "r": r, "seed": p.next(), "arrays": true, "akind": ins}));
+                if p.chance(1, 2) {
+                    ops.push(json!({"op": "commit", "r": r, "seed": p.next()}));
+                }
+                ops.push(json!({"op": "edit", "r": r, "seed": seed, "arrays": true, "akind": akind}));
+                ops.push(json!({"op": "commit", "r": r, "seed": p.next()}));
+            }
+            for r in 1..nrep {
+                ops.push(json!({"op": "sync", "r": 0, "s": r}));
+            }
+            if p.chance(1, 2) {
+                ops.push(json!({"op": "commit", "r": p.below(nrep), "seed": p.next()}));
+                for r in 1..nrep {
+                    ops.push(json!({"op": "sync", "r": 0, "s": r}));
+                }
+            }
+        }
         let rounds = 2 + p.below(4);
         for _ in 0..rounds {
             for r in 0..nrep {
@@ -1083,12 +1108,36 @@ pub fn random_spec(run: u64, seed: u64, profile: &str) -> Value {
                 }
                 ops.push(json!({"op": "commit", "r": r, "seed": p.next()}));
             }
+            match p.below(3) {
+                0 => {
+                    // a race: every replica inserts a fresh element at the same end of the same array
+                    let akind = 2 + p.below(2);
+                    for r in 0..nrep {
+                        ops.push(json!({"op": "edit", "r": r, "seed": p.next(), "arrays": true, "akind": akind}));
+                        ops.push(json!({"op": "commit", "r": r, "seed": p.next()}));
+                    }
+                }
+                1 => {
+                    // twins: every replica makes the same positional edit (same edit script) on its own version
+                    let akind = *p.pick(&[0usize, 1, 4]);
+                    let seed = p.next();
+                    for r in 0..nrep {
+                        ops.push(json!({"op": "edit", "r": r, "seed": seed, "arrays": true, "akind": akind}));
+                        ops.push(json!({"op": "commit", "r": r, "seed": p.next()}));
+                    }
+                }
+                _ => {}
+            }
             for r in 0..nrep {
                 for s2 in 0..nrep {
                     if r < s2 && p.chance(2, 3) {
                         ops.push(json!({"op": "sync", "r": r, "s": s2}));
                     }
                 }
+            }
+            if p.chance(1, 4) {
+                // maintenance while the conflict is still unresolved
+                ops.push(json!({"op": "snapshot", "r": p.below(nrep)}));
             }
             if p.chance(1, 3) {
                 let r = p.below(nrep);
